@@ -210,6 +210,7 @@ LOOKUP_CELLS = {
     'V6': '=VLOOKUP("key",Q1:S5,3)', 'V7': '=VLOOKUP("KEY",Q1:S5,3)', 'V8': '=VLOOKUP(10,Q1:S5,1)', 'V9': '=VLOOKUP(10,Q1:S5,0)', 'V10': '=VLOOKUP(10,Q1:S5,3)+1',
     'V11': '=VLOOKUP(Q2,Q1:S5,3)', 'V12': '=VLOOKUP(10.0,Q1:S5,3)', 'V13': '=VLOOKUP("10",Q1:S5,3)', 'V14': '=VLOOKUP(10,Q1:S5,-1)', 'V15': '=VLOOKUP(TRUE,Q1:S5,2)',
     'V16': '=VLOOKUP(1,Q1:S5,2)', 'V17': '=VLOOKUP(30,Q1:S5,2)', 'V18': '=VLOOKUP("ke",Q1:S5,2)', 'V19': '=VLOOKUP(20,Q2:S3,3)', 'V20': '=VLOOKUP(20,Q3:S5,2)',
+    'V21': '=VLOOKUP(99,Q1:S5,1)', 'V22': '=VLOOKUP("zz",Q1:S5,1)', 'V23': '=VLOOKUP(FALSE,Q1:S5,1)',
     # criteria over rows and rectangles; exact MATCH spelt FALSE
     'AA1': 3, 'AA2': 1, 'AA3': 4, 'AB1': 1, 'AB2': 5, 'AB3': 9, 'AC1': 'fig', 'AC2': 'Fig', 'AC3': 'plum',
     'W1': '=COUNTIF(C1:C5,">0")', 'W2': '=COUNTIF(AA1:AC1,"fig")', 'W3': '=COUNTIF(AA1:AB3,">2")', 'W4': '=COUNTIF(AA1:AC3,"fig")', 'W5': '=COUNTIF(AA1:AB1,1)',
@@ -223,7 +224,7 @@ LOOKUP_EXPECTED = {
     'M16': 4, 'M17': 1,
     'K1': 2, 'K2': 2, 'K3': 3, 'K4': 1, 'K5': 1, 'K6': 4, 'K7': 2, 'K8': 2, 'K9': 0, 'K10': 3, 'K11': 1,
     'V1': 'x', 'V2': 'y', 'V3': 2.5, 'V4': '#N/A', 'V5': '#VALUE!', 'V6': 4.5, 'V7': 4.5, 'V8': 10, 'V9': '#VALUE!', 'V10': 2.5, 'V11': 2.5, 'V12': 1.5, 'V13': '#N/A',
-    'V14': '#VALUE!', 'V15': 't', 'V16': '#N/A', 'V17': '#N/A', 'V18': '#N/A', 'V19': 2.5, 'V20': 'z',
+    'V14': '#VALUE!', 'V15': 't', 'V16': '#N/A', 'V17': '#N/A', 'V18': '#N/A', 'V19': 2.5, 'V20': 'z', 'V21': '#N/A', 'V22': '#N/A', 'V23': '#N/A',
     'W1': 5, 'W2': 1, 'W3': 4, 'W4': 2, 'W5': 1, 'W6': 4, 'W7': 1, 'W8': 2, 'W9': 7, 'X1': 3, 'X2': '#N/A', 'X3': 2, 'X4': 1, 'X5': 2, 'X6': 4,
     'H1': 'b', 'H2': 10, 'H3': 31, 'H4': '#VALUE!', 'H5': '#VALUE!',
 }
